@@ -781,6 +781,23 @@ impl Server {
                             // Pub/sub commands need immediate response for proper timing coordination
                             "SUBSCRIBE" | "UNSUBSCRIBE" | "PSUBSCRIBE" | "PUNSUBSCRIBE" => {
                                 needs_immediate_flush = true;
+                                
+                                // These commands write their confirmations straight to the
+                                // connection: the replies of the commands that precede them
+                                // in this batch are handed over first, to keep reply order
+                                if !responses.is_empty() {
+                                    let earlier: Vec<RespFrame> = responses.drain(..).collect();
+                                    self.connections.with_connection(id, |conn| {
+                                        for response in &earlier {
+                                            if let RespFrame::NoResponse = response {
+                                                continue;
+                                            }
+                                            if let Err(e) = conn.send_frame(response) {
+                                                eprintln!("Send error for connection {}: {}", id, e);
+                                            }
+                                        }
+                                    });
+                                }
                             }
                             _ => {}
                         }
